@@ -236,6 +236,10 @@ pub trait Subject: Sync {
     fn arb(&self, _bytes: &[u8]) -> Option<ArbObs> {
         None
     }
+    /// `Arbitrary::arbitrary_take_rest` (what a fuzz target's last argument / last struct field goes through)
+    fn arb_take_rest(&self, _bytes: &[u8]) -> Option<ArbObs> {
+        None
+    }
 }
 
 // ---------------------------------------------------------------- helpers used by glue
@@ -325,6 +329,10 @@ pub fn fmt_all<D: Display + ?Sized>(d: &D) -> Vec<String> {
         format!("{:010.3}", d),
         format!("{:^9.1}", d),
         d.to_string(),
+        format!("{:4}|", d),
+        format!("{:>3}|", d),
+        format!("{:-^5}", d),
+        format!("{:.2}", d),
     ]
 }
 
